@@ -185,14 +185,21 @@ check("C09",
       "DESIGN.md §4 C09")
 check("C11",
       "Theorems (Lean): with a chain ending in 7zAES every content byte reaches the cipher exactly once, in order, in "
-      "16-byte aligned calls, zero padded, for every chunking; header-mode machine (any setter sequence): encrypted -> "
-      "encoded and the AES filter is chosen iff encrypted; AES coder and no password -> PasswordRequired before any "
-      "decode; wrong-key output is delivered only on a CRC-32 collision. Tied by the aes stream and by the setter "
-      "sequences run on real SevenZipFile objects. Explored: plaintext / compressed-form / name windows searched in the "
-      "archive bytes, IV and ciphertext reuse across two builds, absent / wrong / right passwords (Unicode, empty), "
-      "independent KDF decrypts. Partial: secrecy of AES-CBC, RNG quality and KDF strength are outside any model here.",
-      "Lean 4 invariant proof of the AES residue buffers + decision-logic theorems + differential correspondence + leak/IV/password exploration",
-      "DESIGN.md §4 C11")
+      "16-byte aligned calls, zero padded, for every chunking; key_material_injective - for a fixed salt the bytes fed "
+      "to the key derivation (salt ++ UTF-16LE units of the password as given) determine the password, for passwords in "
+      "any normalisation form and any plane: no canonically equivalent, truncated or folded password derives the same "
+      "key; header-mode machine (any setter sequence): encrypted -> encoded and the AES filter is chosen iff encrypted; "
+      "AES coder and no password -> PasswordRequired before any decode; wrong-key output is delivered only on a CRC-32 "
+      "collision. Tied by the aes.c/aes.d streams, by aes.km (calculate_key's arguments recorded during real write, "
+      "append and read sessions with precomposed, decomposed, jamo, compatibility and astral passwords vs keyMaterial) "
+      "and by the setter sequences run on real SevenZipFile objects. Explored: plaintext / compressed-form / name windows "
+      "searched in the archive bytes, IV and ciphertext reuse across two builds, absent / wrong / right passwords incl. "
+      "every canonical and compatibility equivalent of the right one as a WRONG password, create and append sessions on "
+      "bases with plain / encoded / encrypted headers, append sessions opened with a wrong password (must not destroy), an "
+      "independent KDF decrypts with the original password. Partial: secrecy of AES-CBC, RNG quality and KDF strength "
+      "are outside any model here.",
+      "Lean 4 invariant proof of the AES residue buffers + injectivity of the key material + decision-logic theorems + differential correspondence + leak/IV/password exploration",
+      "DESIGN.md §4 C11, §9.11")
 
 check("C04",
       "Theorems (Lean, no enumeration/SAT): CRC-32 modelled as the bit-serial shift register of the format's appendix "
@@ -208,16 +215,24 @@ check("C04",
       "DESIGN.md §4 C04")
 
 check("C14",
-      "Theorems (Lean): the placeholder signature header cannot verify, so every crash image taken before the final "
-      "rewrite is rejected (kernel-evaluated CRC over the concrete placeholder, for any bytes after it); a rewrite torn "
-      "inside its first eight bytes leaves the placeholder unchanged; a rewrite torn inside its last four bytes is "
-      "rejected by the start-header CRC unless it equals the final header (burst theorem). The remaining torn positions "
-      "(bytes 8..27) depend on the session's values and are decided by exploration: create and append sessions on a "
-      "tracing file object, EVERY byte-granular prefix of the write stream plus dropped/reordered last blocks, each image "
-      "opened by py7zr and by the independent reader and required to be rejected or complete and correct. The start-header "
-      "gate is tied to the code by the crash stream. Partial: what a real OS persists is modelled as write prefixes.",
-      "Lean 4 proofs about torn signature headers (CRC burst theorem) + differential correspondence + exhaustive crash-prefix exploration",
-      "DESIGN.md §4 C14")
+      "Theorems (Lean, every session of the write models, every crash point (n complete writes, k bytes of the next)): "
+      "create_crash_verdict / session_crash_verdict / session_encoded_crash_verdict - the image of a torn CREATE session "
+      "(raw or encoded header, any members, chain, sizes) fails the start-header gate, or is byte for byte the finished "
+      "archive, or exhibits a CRC-32 collision between the final 20 field bytes and the same bytes with >=5 trailing "
+      "placeholder bytes (the format's 32-bit protection of its commit record, stated, not hidden); append_crash_verdict "
+      "/ good_append_crash_verdict - for every archive reachable by create+append sessions and every APPEND session (raw "
+      "header) the image is rejected by the two gates, or passes them with the OLD header and an untouched prefix (reads "
+      "as before the session), or is the finished archive, or exhibits a CRC-32 collision; plus skeleton_rejected, "
+      "torn_sig_cases, torn_tail_rejected (burst theorem). The write sequences the theorems quantify over are tied to the "
+      "code by streams ws.ops / ws.eops / ws.aops (recorded seek/write traces of real sessions with scripted codecs vs "
+      "sessionOps / sessionOpsEncoded / appendSessionOps) and the gates by crash.ok / crash.gate (real open path vs "
+      "startHeaderOk / headerGate). Explored on the real code: EVERY byte-granular prefix of the recorded traces of create and "
+      "append sessions (all member-adding calls incl. writeall after earlier content, nested archives as members, tiny "
+      "headers) plus dropped/reordered last blocks, each image opened by py7zr and by the independent reader: rejected, or "
+      "complete and correct (append: before or after). Partial: what a real OS persists is modelled as write prefixes; "
+      "appends on encoded-header bases are covered by exploration, not by a theorem.",
+      "Lean 4 proofs over the session write-sequence model (case analysis of torn commit records, CRC burst theorem, archive invariant) + differential correspondence of write traces and open gates + exhaustive crash-prefix exploration",
+      "DESIGN.md §4 C14, §9.11")
 check("C15",
       "Theorem (Lean, histories of any length, any number of failing calls at any stage): every failing call raises, "
       "no other call does, and the closed archive describes exactly the members of the successful calls in order with "
